@@ -142,7 +142,7 @@ def vector(req):
     rejected = False
     try:
         if req["auth"]:
-            auth = AuthBasic([(c["name"], c["token"]) if c["token"] else c["name"] for c in req["clients"]])
+            auth = AuthBasic([(c["name"], c["token"]) if c.get("given", bool(c["token"])) else c["name"] for c in req["clients"]])
             if req.get("reuse"):
                 # the application's auth object has already been used for another service, whose
                 # reply carried the cookies Tor generated for it; the request under test is unaffected
@@ -245,7 +245,8 @@ def vector(req):
                 obs["flags"] += t[6:].split(",")
             elif t.startswith("ClientAuth="):
                 v = t[11:]
-                obs["cauth"].append(v.split(":", 1) if ":" in v else [v, ""])
+                # third field: a token was sent for the client (name:blob, the blob possibly empty) rather than the bare name
+                obs["cauth"].append((v.split(":", 1) if ":" in v else [v, ""]) + [":" in v])
             else:
                 obs["flags"].append("?" + t)
         if "\r" in adds[0] or "\n" in adds[0]:
@@ -286,6 +287,7 @@ def vector(req):
             obs["del"] = "?multiple"
     for c in req["clients"]:
         c.setdefault("token", "")
+        c.setdefault("given", bool(c["token"]))
     return dict(req=req, obs=obs)
 
 
